@@ -8,7 +8,6 @@ import (
 	"io"
 	"math/rand"
 	"os"
-	"regexp"
 	"sort"
 
 	"github.com/uber-go/tally"
@@ -19,36 +18,18 @@ import (
 	"github.com/uber/kraken/lib/store/metadata"
 
 	"kvh/internal/eng"
+	vmdpkg "kvh/internal/vmd"
 )
 
 func init() {
-	metadata.Register(regexp.MustCompile("^_vmov$"), vmdFactory{})
-	metadata.Register(regexp.MustCompile("^_vfix$"), vmdFactory{})
 	eng.Register("c07", func(c *eng.Ctx) error { return run(c, false) })
 	eng.Register("c08", func(c *eng.Ctx) error { return run(c, true) })
 }
 
-// ---- harness metadata kinds: "mov" (movable) and "fix" (not movable), one byte of payload.
-type vmd struct {
-	suffix string
-	v      int
-}
-type vmdFactory struct{}
+type vmd = vmdpkg.MD
 
-func (vmdFactory) Create(suffix string) metadata.Metadata { return &vmd{suffix: suffix} }
-func (m *vmd) GetSuffix() string                         { return m.suffix }
-func (m *vmd) Movable() bool                             { return m.suffix == "_vmov" }
-func (m *vmd) Serialize() ([]byte, error)                { return []byte{byte(m.v)}, nil }
-func (m *vmd) Deserialize(b []byte) error {
-	if len(b) != 1 {
-		return fmt.Errorf("bad vmd length %d", len(b))
-	}
-	m.v = int(b[0])
-	return nil
-}
-
-var sufName = map[string]string{"_vmov": "mov", "_vfix": "fix"}
-var sufs = []string{"_vmov", "_vfix"}
+var sufName = vmdpkg.Name
+var sufs = vmdpkg.Suffixes
 
 // ---- a uniform view of the two stores
 type rw interface {
@@ -373,15 +354,15 @@ func run(c *eng.Ctx, mem bool) error {
 			case op < 83:
 				suf := sufs[rng.Intn(2)]
 				v := 1 + rng.Intn(3)
-				err := s.SetMd(k, &vmd{suffix: suf, v: v}, sc)
+				err := s.SetMd(k, &vmd{Suffix: suf, V: v}, sc)
 				ev("SetMd", "k", kname[k], "s", sufName[suf], "v", v, "sc", scName[sc], "res", Classify(err))
 			case op < 90:
 				suf := sufs[rng.Intn(2)]
-				m := &vmd{suffix: suf}
+				m := &vmd{Suffix: suf}
 				ok, err := s.GetMd(k, m, sc)
 				v := 0
 				if ok {
-					v = m.v
+					v = m.V
 				}
 				ev("GetMd", "k", kname[k], "s", sufName[suf], "sc", scName[sc], "res", Classify(err), "v", v)
 			case op < 93:
